@@ -239,12 +239,15 @@ class C05(Check):
             'parquet, vs CSV, assertOnDiskDataFrameCorrect}, base frame of 1-3 '
             'columns over 10 dtype families with 0-3 rows and nulls anywhere, '
             '0/1/2 deviations from {cell changed / to null / from null / '
-            'float delta of 10 or 0.1 rounding units, rename, dtype change, '
+            'float delta of 10, 1.6 or 0.1 rounding units, rename, dtype change, '
             'column swap, row dropped/added, extra column, column removed}), '
             'each evaluated at a set of option points (full product of '
             'check_data/check_types/check_order/check_extra_cols x sortby x '
             'condition x precision x type_matching on the copy layer; star '
-            'plus product of the relevant dimensions on deviation layers); '
+            'plus product of the relevant dimensions on deviation layers; '
+            'check_dataframe is called with create_temporaries=False, the '
+            'assert* entry points write their failure temporaries into the '
+            'sandbox); '
             'non-trivial = the model gives a definite verdict for at least '
             'one option point and the frames have at least one cell or one '
             'deviation')
@@ -284,6 +287,14 @@ class C05(Check):
 
     def cases(self, tier, layer):
         return gen_cases(tier, layer)
+
+    def extra_coverage(self):
+        return {'deviation_bound': {'quick': 1, 'thorough': 2},
+                'entry_points': ['assertDataFramesEqual',
+                                 'PandasComparison.check_dataframe',
+                                 'assertDataFrameCorrect(parquet)',
+                                 'assertDataFrameCorrect(csv)',
+                                 'assertOnDiskDataFrameCorrect']}
 
     # ------------------------------------------------------------- worker
 
